@@ -15,6 +15,10 @@ def run(tier, seed):
     # pinned schedule: a thread stalled inside _mi_arena_segment_mark_abandoned (after the bit is set) while another thread adopts and
     # frees the segment (debug builds aborted on a racy assertion before /repo 34edd07)
     jobs.append({"prog": "exit", "strategy": "pct", "runs": (1, 1), "args": [], "env": None, "seed": 1003437, "builds": ["dbg"]})
+    # walks over the abandoned memory (mi_abandoned_visit_blocks takes every abandoned segment off the bitmap / list while it looks at it, also
+    # when the visitor stops the walk): every segment must be abandoned again when the call returns (AbandonTrace.WonSegmentsSettled), and released at the end
+    jobs.append({"prog": "abvisit", "strategy": "random", "runs": (30, 400), "args": ["--rate", "3"], "env": {"MIMALLOC_VISIT_ABANDONED": "1"}})
+    jobs.append({"prog": "abvisit", "strategy": "pct", "runs": (20, 300), "args": [], "env": {"MIMALLOC_VISIT_ABANDONED": "1", "MIMALLOC_DISALLOW_ARENA_ALLOC": "1"}})
     jobs.append({"prog": "exit-heap", "strategy": "random", "runs": (30, 400), "args": ["--rate", "3"], "env": None})
     jobs.append({"prog": "exit-heap", "strategy": "random", "runs": (30, 400), "args": ["--rate", "3"], "env": rof})
     jobs.append({"prog": "exit", "strategy": "random", "runs": (60, 800), "args": ["--size", "60000", "65536"], "env": rof})
@@ -31,7 +35,7 @@ def run(tier, seed):
     for tag, env in (("subproc", {}), ("subproc.rof", rof)):      # two sub-processes: abandoned memory is only touched within its own
         oruns.append({"args": ["--workload", "subproc", "--rounds", "3" if q else "6"], "env": dict(env), "tag": tag, "build": "rel"})
         oruns.append({"args": ["--workload", "subproc", "--rounds", "3"], "env": dict(env), "tag": tag, "build": "dbg"})
-    V, ocov = osfam.run_os("C09", tier, seed, oruns, builds=["rel", "dbg"], own_guards={"AllReleased", "DirtyAllReleased", "NoCreepMapped", "QuiesceNoLive", "NoOverlap", "ContentsKept.gen", "ContentsKept.bytes",
+    V, ocov = osfam.run_os("C09", tier, seed, oruns, builds=["rel", "dbg"], own_guards={"AllReleased", "DirtyAllReleased", "NoCreepMapped", "QuiesceNoLive", "NoOverlap", "ContentsKept.gen", "ContentsKept.bytes", "OwnershipQuery",
                            "DestructiveAvoidsLive", "LiveAccessible", "Invariant.Inv"}, crash_decisive=True, group=2, finish=False, outname="C09os")
     return concfam.run_conc("C09", tier, seed, jobs, GUARDS, step_guards=concfam.STEP_GUARDS, V=V,
                             extra_cov={"release_at_quiescence": {k: ocov[k] for k in ("traces_validated_against_impl", "trace_events_validated", "os_events", "runs_sample")}}, mc=("MiAbandonMC", ("MiAbandon_mc.cfg", "MiAbandon_mc_thorough.cfg")), guided_progs=(),
